@@ -29,6 +29,11 @@ def run(ctx):
         return (any(len(e["p"]) >= 3 for e in sc["fs0"]) or any(e["k"] == "link" for e in sc["fs0"])
                 or len(sc["sources"]) > 1 or any(e["p"][0] == "d" and len(e["p"]) > 1 for e in sc["fs0"]))
     nsprop.run(ctx, "C02", scs, nontrivial=nt, names_for=names_for, model_limit=400 if ctx.tier == "quick" else None)
+    _combo(ctx)
+
+def _combo(ctx):
+    from .. import build, combo
+    combo.run(ctx, build.xcp(), {"C02"}, 40 if ctx.tier == "quick" else 400, "C02")
 
 def replay(ctx, path):
     nsprop.replay(ctx, "C02", path)
